@@ -58,6 +58,7 @@ def run(res, replay=None):
         cfgs += [("clang++", "c++17", ("-O1",), NOASSERT)]
     res.extra["configurations"] = ["%s -std=%s -DSBEPP_DISABLE_ASSERTS" % (c[0], c[1]) for c in cfgs]
     cases = prepare_many(res.seed, nschemas, cfgs)
+    cases.append(prepare_fixed(edge_schema(), cfgs))
     dist = {"valid": 0, "invalid": 0, "oob": 0, "truncations": 0, "overwrites": 0}
     for ci, mc in enumerate(cases):
         if mc.error:
@@ -105,6 +106,11 @@ def run(res, replay=None):
                     if trng.chance(1, 3) and len(img) > 2:
                         cut = trng.below(len(img))
                         bufs.append(("overwrite+trunc:%s=%d" % (what, val), bytes(mod[:cut])))
+                    # structures that end exactly at the buffer end: right after the message header and
+                    # right after the overwritten dimension / length field's header
+                    for cut in sorted({lay["hdr"]} | {off + w + k for k in range(9)}):
+                        if val in (0, 1) and cut <= len(img):
+                            bufs.append(("overwrite+cut:%s=%d@%d" % (what, val, cut), bytes(mod[:cut])))
                     dist["overwrites"] += 1
             for kind, b in bufs:
                 jobs.append((m, kind, b, len(mlines), len(ilines)))
